@@ -80,9 +80,9 @@ func c03Profiles(tier Tier) []*explore.Profile {
 		},
 		Menu: func(w *world.World) []world.Action { return gatedCalls(uni.A0) },
 	}
-	depth := 2
+	depth := 3
 	if tier.Thorough() {
-		depth = 3
+		depth = 4
 	}
 	hist := &explore.Profile{
 		Name: "authority", EnvCfg: ledgerEnv(2), Seeds: seedsOf("mixed", "handover"), Depth: depth, Deadline: tierDeadline(tier), Oracles: orc,
@@ -330,9 +330,9 @@ func c08Profiles(tier Tier) []*explore.Profile {
 			return hopMenu(w, o, uni.S, []int64{1}, false)
 		},
 	}
-	depth := 4
+	depth := 5
 	if tier.Thorough() {
-		depth = 6
+		depth = 7
 	}
 	// routes: chains of hops over all four kinds, destinations holding or not holding the same NFT,
 	// metadata updates between hops
